@@ -34,9 +34,14 @@ def eval_call(I, node, frame):
             saved = I.in_old
             I.in_old = True
             try:
-                return I.eval(node.args[0], frame)
+                r_old = I.eval(node.args[0], frame)
             finally:
                 I.in_old = saved
+            if r_old.kind in ('mobj', 'odict', 'mdict') and I.old_map is not None:
+                # a mutable object has no old VALUE of its own: reads through it outside old() would see the new state
+                raise StaleContract(f"old() of a mutable object ({ast.unparse(node)}): put the whole expression that "
+                                    f"reads it inside old()")
+            return r_old
         if fn.id in ('forall', 'exists') and (I.spec or frame.module == 'ghost'):
             return eval_quant(I, node, frame, fn.id)
         if fn.id == 'implies' and (I.spec or frame.module == 'ghost'):
